@@ -379,12 +379,20 @@ class Run:
         msg = b"HTTP/1.1 200 OK\r\nContent-Length: 0\r\n" + (b"Connection: close\r\n" if s.get("close") else b"") + b"\r\n"
         if self.w.recv(phys, msg):
             self.n_answered[id(c)] = self.n_answered.get(id(c), 0) + 1
+            # the model predicts what the HTTP/1 client layer does with the connection once the exchange is complete
+            closes = bool(s.get("close"))
+            self.model_lines.append(f"rdone {self.cid_of(c)} {int(closes)}")
+            if closes or self.h2: self.known_state[id(c)] = "00"
 
     def do_close(self, s):
         sv = self.servers()
         if not sv: return
         c, l = sv[s["c"] % len(sv)]
-        self.w.peer_close(phys_of(c, l))
+        logical = l.context.server if isinstance(l.context.server, Server) and l.context.server in self.lay.connections else c
+        if self.w.peer_close(phys_of(c, l)):
+            # the model predicts the reaction to the peer's FIN (the state of the tunnel entry, if any, is synced)
+            self.model_lines.append(f"pclose {self.cid_of(logical)}")
+            if self.known_state.get(id(logical), "00")[0] == "1": self.known_state[id(logical)] = "00"
 
     def do_poke(self, s):
         if s["c"] == "ctx":
@@ -424,23 +432,30 @@ def run_case(case):
 class Check(PropertyCheck):
     prop = "C08"
     design_ref = "§5 C08"
-    level_text = ("Lean theorems about an executable model of HttpLayer's connection pool (ordered `connections`, "
-                  "waiting_for_establishment, get_connection with its reuse rule — pending / error / connected / half-closed / "
-                  "HTTP/2->HTTP/1 — and the context-connection branch, register_connection incl. the one-flow-per-connection "
-                  "re-dispatch, connection_spec_matches, the Server.__setattr__ guard) for ALL histories of requests, connection "
-                  "results, state changes, error marks and attribute assignments (invariant by induction over the history): "
-                  "routed_to_matching, failed_not_reused, errored_never_routed, open_conn_immutable, setAttr_guard, "
-                  "waiting_matches (+ pending_poke_misroutes: the admissibility hypothesis is necessary). "
+    level_text = ("Lean theorems about an executable model of HttpLayer's connection pool (ordered `connections` incl. the tunnel "
+                  "entries, waiting_for_establishment, get_connection with its reuse rule — pending / error / connected / "
+                  "half-closed / HTTP/2->HTTP/1 — and the context-connection branch, register_connection incl. the "
+                  "one-flow-per-connection re-dispatch, connection_spec_matches, the Server.__setattr__ guard, and the closes the "
+                  "HTTP/1 client layer makes itself: full close on the peer's FIN, close after an exchange with Connection: close "
+                  "or for an HTTP/2 client) for ALL histories of requests, connection results, peer closes, completed exchanges, "
+                  "raw state changes, error marks and attribute assignments (invariants by induction over the history): "
+                  "routed_to_matching, failed_not_reused, errored_never_routed, dead_entry_never_routed, "
+                  "failed_attempt_never_routed, open_conn_immutable, open_interval_immutable, setAttr_guard, waiting_matches "
+                  "(+ pending_poke_misroutes: the admissibility hypothesis is necessary). "
                   "The model is tied to the real HttpLayer/HttpStream/HttpClient/ServerTLSLayer/HttpUpstreamProxy stack run "
                   "through world.py: after every step of a history the routing decisions and the whole pool (attributes, state, "
-                  "error, tunnel entries, waiting lists) are compared.")
-    level_note = ("trusted: Lean kernel; the differential tie (scenario grid + random histories); the model sees Connection.state "
-                  "changes as inputs (they are made by the server and the HTTP/1, TLS and tunnel layers, which are run for real "
-                  "but not modelled); OpenSSL is replaced by an identity cipher handed to the real ServerTLSLayer through its "
-                  "tls_start_server hook; upstream HTTP/2 and HTTP/3 servers and CONNECT requests from the client are not driven. "
-                  "routed_to_matching assumes that no addon re-assigns address/via of a connection while its connection attempt "
-                  "is pending (the guard does not cover that: a server_connect hook doing so redirects deliberately); the "
-                  "hypothesis is explicit in the theorem (Admissible) and shown necessary by pending_poke_misroutes.")
+                  "error, tunnel entries, waiting lists) are compared; the state of a connection after a peer close or a completed "
+                  "exchange is PREDICTED by the model, not fed to it.")
+    level_note = ("trusted: Lean kernel; the differential tie (scenario grid + exhaustive <=4-step histories + random histories). "
+                  "Still inputs of the model: Connection.state of tunnel entries and state changes by client teardown (made by the "
+                  "server and the tunnel layer, run for real); OpenSSL is replaced by an identity cipher handed to the real "
+                  "ServerTLSLayer through its tls_start_server hook; upstream HTTP/2 and HTTP/3 servers and CONNECT requests from "
+                  "the client are not driven. routed_to_matching assumes that no addon re-assigns address/via of a connection "
+                  "while its attempt is pending (the guard does not cover that: a server_connect hook doing so redirects "
+                  "deliberately); the hypothesis is explicit (Admissible) and shown necessary by pending_poke_misroutes. "
+                  "dead_entry_never_routed / failed_attempt_never_routed assume that raw state changes never re-open a socket "
+                  "(NoReopen) and, for the latter, that the pending connection is not connected before its result arrives "
+                  "(visible in every pool dump of the tie, not proved as an invariant).")
     technique = "Lean 4 proof (pool invariant over all histories) + end-to-end correspondence through the real HttpLayer with scripted connection outcomes"
     rule = ("scenario grid (mode x client protocol x two-request patterns over the 3x2x2x2(+1 proxy) destination universe x "
             "connection fates) then random histories of <= 12 steps: requests (with requestheaders/request rewrites of host, "
@@ -455,6 +470,8 @@ class Check(PropertyCheck):
                     "mitmproxy.proxy.layers.http:HttpStream.make_server_connection",
                     "mitmproxy.proxy.layers.http:HttpClient._handle_event",
                     "mitmproxy.connection:Server.__setattr__",
+                    "mitmproxy.proxy.layers.http._http1:Http1Connection.mark_done",
+                    "mitmproxy.proxy.layers.http._http1:Http1Client.read_headers",
                     "mitmproxy.connection:Connection.connected",
                     "mitmproxy.proxy.layers.tls:TLSLayer.__init__",
                     "mitmproxy.proxy.tunnel:TunnelLayer._handle_event"]
